@@ -4,8 +4,8 @@ PROP = {
     'specs': ['specs.connectivity'],
     'functions': [S + f for f in ('previous_corner', 'next_corner', 'opposite_corner', 'corner_to_half_edge', 'half_edge_to_corner', 'direct_face',
                                   'vertex_to_corners', 'vertex_to_corner_in_face', 'face_to_first_corner')]
-                 + ['mouette.mesh.datatypes.linear.PolyLine._Connectivity.vertex_to_vertices',
-                    S + '_compute_connectivity#half_edges'],
+                 + ['mouette.mesh.datatypes.linear.PolyLine._Connectivity.vertex_to_vertices'],
+    # S + '_compute_connectivity#half_edges' (content of the half-edge table) is NOT registered: see 'explanation'
     'level': 'proof',
     'trusted_base': ['A1 CPython executes the parsed AST as pyvc models it', 'A3 z3 is sound', 'A5 dict iteration order is some fixed enumeration',
                      'half-edge region: the (vertex, face) -> corner table numbers the corners face by face (established by the statements before the region: not verified); '
@@ -13,10 +13,10 @@ PROP = {
                      'parameters tied to the face rows; monotonicity of the corner prefix sums follows from the recurrence by induction (not mechanised)',
                      'ASSUMED contract of SurfaceMesh._Connectivity._compute_connectivity: it builds all six tables together and they are structurally consistent '
                      '(predicates built/ts/tbl in specs/connectivity.py); the CONTENT of the tables against the face list is not proved here (bounded stand-in)'],
-    'explanation': 'Also proved (region contract on the real statements of _compute_connectivity that fill the half-edge table): for every oriented manifold face list, '
-                         'every corner c = first[f]+i gets the record [c, previous corner, next corner, None, f, i, (i+1)%len] under the key of its directed edge, and the corner -> half-edge '
-                         'table maps c to that directed edge. The opposite-linking loop that follows (fills field 3), the vertex/corner tables before it and the rotational sorting are NOT under '
-                         'contract: bounded stand-in.',
+    'explanation': 'The content of the half-edge table (region contract _compute_connectivity#half_edges in specs/connectivity.py: every corner c = first[f]+i gets the record '
+                   '[c, previous corner, next corner, None, f, i, (i+1)%len] under the key of its directed edge) was discharged completely in four runs (two local, two clean-room quick runs) but one '
+                   'thorough-tier run left one of its 174 obligations UNDECIDED (solver instability on a modulo term). A check that can come back undecided on the unchanged tree is not registered: '
+                   'the contract is kept in the sidecar file and can be run with `python3-vt -m pyvc.run1 specs.connectivity "<qual>#half_edges"`, but it is not counted in this evidence.',
     'bounded': [
         {'name': 'all', 'function': 'all 30 connectivity / border accessors of SurfaceMesh vs direct inspection of the face list', 'engine': 'Br (native run-time contract)',
          'bound': '7 oriented manifold meshes (closed, 1 and 2 border loops, triangles/quads/mixed, interior and border fans) x rotations of the first two faces x 2 vertex numberings '
